@@ -436,3 +436,4 @@ M('C20', 'neutral-rename', CFM, "        let i_inner = inner_vertices(self, i_bo
 M('C20', 'neutral-cos-order', CFM, "let cos_b = (a.powi(2) + c.powi(2) - b.powi(2)) / (2.0 * a * c);", "let cos_b = (c.powi(2) + a.powi(2) - b.powi(2)) / (2.0 * c * a);", '', kind='neutral')
 M('C20', 'neutral-bary-term-order', UVM, "        let p = tri.a.coords * barycentric[0]\n            + tri.b.coords * barycentric[1]\n            + tri.c.coords * barycentric[2];", "        let p = tri.c.coords * barycentric[2]\n            + tri.a.coords * barycentric[0]\n            + tri.b.coords * barycentric[1];", '', kind='neutral')
 M('C20', 'uv_to_3d-wrong-triangle', MSH, "        let t = self.shape.triangle(i as u32);\n        let coords = t.a.coords * bc[0]", "        let t = self.shape.triangle(bc.len() as u32 - 3 + i as u32 / 2);\n        let coords = t.a.coords * bc[0]", 'Mesh::uv_to_3d')
+M('C13', 'curve3-dedup-squared', 'src/geom3/curve3.rs', "        points.dedup_by(|a, b| dist(a, b) <= tol);", "        points.dedup_by(|a, b| (*a - *b).norm_squared() <= tol);", 'Curve3::from_points:dedup-predicate')
